@@ -18,7 +18,7 @@ META = {
     "exhaustive": {"quick": True, "thorough": True},
     "floors": {
         "quick": {"channel_pairs": 256, "channel_triples": 4096, "qubit_pairs": 289, "edge_pairs": 20000, "sequences": 3900},
-        "thorough": {"channel_pairs": 256, "channel_triples": 4096, "edge_pairs": 80000, "sequences": 39000},
+        "thorough": {"channel_pairs": 256, "channel_triples": 4096, "edge_pairs": 60000, "sequences": 39000},
     },
 }
 
